@@ -9,6 +9,7 @@ import (
 	"runtime/debug"
 	"strings"
 	"sync"
+	"unsafe"
 
 	"github.com/openacid/slim/encode"
 	"github.com/openacid/slim/trie"
@@ -112,10 +113,38 @@ func selftest() int {
 	} else {
 		fail("race build of the harness not found at %s", raceExe)
 	}
+	// planted over-read: AddressSanitizer must be live in the asan build (the
+	// build is optional: without it the thorough tier runs no asan pass)
+	asanExe := strings.TrimSuffix(exe, ".race") + ".asan"
+	if _, err := os.Stat(asanExe); err == nil {
+		cmd := exec.Command(asanExe, "selftest-asan")
+		cmd.Env = append(os.Environ(), "ASAN_OPTIONS=halt_on_error=1:abort_on_error=0:detect_leaks=0:exitcode=66")
+		out, err := cmd.CombinedOutput()
+		if err == nil || !strings.Contains(string(out), "AddressSanitizer") {
+			fail("AddressSanitizer did not report the planted over-read behind a heap object: %v %s", err, truncate(string(out), 300))
+		} else {
+			fmt.Println("selftest: planted one-byte over-read behind a 24-byte heap object -> AddressSanitizer report, worker exit", err)
+		}
+	} else {
+		fmt.Println("selftest: no asan build of the harness (optional)")
+	}
 	if rc == 0 {
 		fmt.Println("selftest: ok")
 	}
 	return rc
+}
+
+// selftestAsan reads one byte behind a heap object through an unsafe pointer.
+//
+//go:noinline
+func selftestAsan() int {
+	b := make([]byte, 24)
+	b[3] = 7
+	sinkByte = *(*byte)(unsafe.Add(unsafe.Pointer(&b[0]), 3))
+	fmt.Println("in bounds ok, mode=", buildMode)
+	sinkByte = *(*byte)(unsafe.Add(unsafe.Pointer(&b[0]), len(b)))
+	fmt.Println("over-read went unnoticed")
+	return 0
 }
 
 var sinkByte byte
